@@ -52,6 +52,7 @@ NO_PANIC_EXACT = {
     "core::str::<impl str>::chars", "core::str::<impl str>::is_empty", "core::str::<impl str>::len", "core::str::<impl str>::as_bytes", "core::str::<impl str>::bytes", "core::str::<impl str>::char_indices", "core::str::<impl str>::is_ascii", "core::slice::<impl [u8]>::is_ascii", "core::slice::<impl [u8]>::make_ascii_uppercase", "core::slice::ascii::<impl [u8]>::make_ascii_uppercase", "core::slice::ascii::<impl [u8]>::make_ascii_lowercase", "core::slice::ascii::<impl [u8]>::is_ascii", "core::slice::ascii::<impl [u8]>::eq_ignore_ascii_case", "core::slice::<impl [u8]>::to_ascii_uppercase", "core::slice::<impl [u8]>::eq_ignore_ascii_case", "core::str::<impl str>::to_ascii_uppercase", "core::str::<impl str>::make_ascii_uppercase", "core::num::<impl u8>::to_ascii_uppercase", "core::num::<impl u8>::is_ascii", "core::num::<impl u8>::is_ascii_control", "std::str::from_utf8", "core::str::from_utf8",
     "digest::CtOutput::<T>::into_bytes", "digest::generic_array::GenericArray::<T, N>::as_slice",
     "std::array::<impl [T; N]>::as_slice", "std::array::<impl [T; N]>::as_mut_slice",
+    "std::array::<impl std::convert::AsMut<[T]> for [T; N]>::as_mut", "core::array::<impl std::convert::AsMut<[T]> for [T; N]>::as_mut",
     "std::array::equality::<impl std::cmp::PartialEq<[U; N]> for [T; N]>::eq", "std::array::equality::<impl std::cmp::PartialEq<[U; N]> for [T; N]>::ne",
     "std::cmp::PartialEq::ne", "std::cmp::PartialEq::eq",
     "std::cmp::impls::<impl std::cmp::PartialEq<&B> for &A>::eq", "std::cmp::impls::<impl std::cmp::PartialEq<&B> for &A>::ne",
@@ -364,6 +365,11 @@ def call_obligation(ctx, rep, world, pr, p, b, bi, t, info, n_site, r32_sinks):
             if own_key:
                 rep.ok("unwrap", p, role, "excluded by the property: documented panic on an invalid self-generated public key", b.loc(bi))
                 return
+        if short == "expect" and util.is_call(src) and src[1] in ("key::PublicKey::client_try_from_bigint", "key::PublicKey::try_from_bigint") and p.startswith("client::SrpClientChallenge::") and any(util.is_call(x, "key::PrivateKey::randomized") for x in walk(strip(src[2][0]))):
+            # the same documented panic with the helper that computed A looked through: the
+            # validated value is built from the client's own fresh private key
+            rep.ok("unwrap", p, role, "excluded by the property: documented panic on an invalid self-generated public key", b.loc(bi))
+            return
         if util.is_call(src) and src[1] in util.MAC_NEW:
             rep.ok("unwrap", p, role, "justified: Hmac::new_from_slice accepts keys of any length (never Err)", b.loc(bi))
             return
@@ -411,8 +417,13 @@ def symlen(x):
     if x is None:
         return None
     x = strip(x)
-    while util.is_call(x) and (x[1] in util.IDENT_CALLS or "deref" in x[1].lower()):
-        x = strip(x[2][0])
+    while True:
+        if util.is_call(x) and (x[1] in util.IDENT_CALLS or "deref" in x[1].lower()):
+            x = strip(x[2][0])
+        elif x[0] == "after" and len(x) == 4:
+            x = strip(x[3])         # a slice modified in place through `&mut [u8]` keeps its length
+        else:
+            break
     if x[0] == "field" and x[2] == 0 and util.is_call(x[1]) and x[1][1].split("::")[-1] in ("split_at", "split_at_mut"):
         return util.numnorm(x[1][2][1])
     if util.is_call(x) and x[1] in ("core::str::<impl str>::as_bytes", "std::string::String::as_bytes"):
@@ -509,6 +520,35 @@ def reduced32(ctx, rep, sinks, clo):
                         w = fb.ty(fs[0]["ty"]).len if fs and len(fs) == 1 else (ty.len if ty.k == "array" else None)
                         ok = w == 32
                         why = "value is reduced modulo a 32-byte modulus parameter"
+                    elif src[0] == "?":
+                        # the modulus is a field of a parameter (`self.large_safe_prime` of a helper
+                        # struct that carries the group): its width by type
+                        mt = None
+                        for t_ in walk(strip(canon(ctx, se, arg))):
+                            if util.is_call(t_, "num_bigint::BigInt::modpow") and len(t_[2]) == 3:
+                                m_ = strip(t_[2][2])
+                                if util.is_call(m_, "num_bigint::BigInt::from_bytes_le"):
+                                    mt = canon(ctx, se, m_[2][1])
+                                break
+
+                        def ty_of(t_):
+                            t_ = strip(t_)
+                            if t_[0] == "param":
+                                return b.local_ty(t_[1])
+                            if t_[0] == "field" and isinstance(t_[2], int):
+                                bt = ty_of(t_[1])
+                                bt = bt.peel_refs() if bt is not None else None
+                                fs_ = fb.adt_fields(bt.path) if bt is not None and bt.k == "adt" else None
+                                return fb.ty(fs_[t_[2]]["ty"]) if fs_ and t_[2] < len(fs_) else None
+                            return None
+
+                        ty = ty_of(mt) if mt is not None else None
+                        ty = ty.peel_refs() if ty is not None else None
+                        if ty is not None:
+                            fs = fb.adt_fields(ty.path) if ty.k == "adt" else None
+                            w = fb.ty(fs[0]["ty"]).len if fs and len(fs) == 1 else (ty.len if ty.k == "array" else None)
+                            ok = w == 32
+                            why = "value is reduced modulo a 32-byte modulus held in a field of a parameter"
             if ok:
                 # a value below a 32-byte modulus fits only a copy site of at least 32 bytes
                 from rules import c01 as _c01
